@@ -680,8 +680,8 @@ func (c *Ctx) checkD3Indexed(r *ssa.Function, t onnxType, decW int64) {
 			if kk, ok := constInt(m.Y); !ok || kk != t.width {
 				continue
 			}
-			if z, ok := constInt(bo.Y); ok && z == 0 && c.edgeRejects(iff, bo.Op == token.NEQ) {
-				rem = true
+			if z, ok := constInt(bo.Y); ok && z == 0 && (c.edgeRejects(iff, bo.Op == token.NEQ) || edgeReturnsNoValues(iff, bo.Op == token.NEQ)) {
+				rem = true // refused, or answered with no values at all (the count gate then refuses the tensor)
 			}
 		}
 		c.decide(rem, "R13", "R13:D4tail:"+fname(r), site, "len(data) % element size != 0 returns an error",
@@ -1443,4 +1443,39 @@ func (c *Ctx) applyDecodeTable(from int) {
 			o.Status, o.Why = StViolated, bad
 		}
 	}
+}
+
+// edgeReturnsNoValues: every return reachable from that edge of the branch hands out a nil first result.
+func edgeReturnsNoValues(iff *ssa.If, truth bool) bool {
+	b := iff.Block().Succs[1]
+	if truth {
+		b = iff.Block().Succs[0]
+	}
+	seen := map[*ssa.BasicBlock]bool{}
+	var walk func(x *ssa.BasicBlock, d int) bool
+	walk = func(x *ssa.BasicBlock, d int) bool {
+		if seen[x] {
+			return true
+		}
+		seen[x] = true
+		if d > 6 || len(x.Instrs) == 0 {
+			return false
+		}
+		switch t := x.Instrs[len(x.Instrs)-1].(type) {
+		case *ssa.Return:
+			return len(t.Results) >= 1 && isNilConst(t.Results[0])
+		case *ssa.Panic:
+			return true
+		}
+		if len(x.Succs) == 0 {
+			return false
+		}
+		for _, s := range x.Succs {
+			if !walk(s, d+1) {
+				return false
+			}
+		}
+		return true
+	}
+	return walk(b, 0)
 }
